@@ -59,6 +59,9 @@ func checkOutboundFlows(r *Result, prop string) []Violation {
 		return U[id]
 	}
 	connSess := map[int]string{}
+	pastRec := map[string]bool{} // "session|payload": the client's PUBREC for this message has been read, PUBCOMP not yet
+	inheriting := map[string]int{} // client id -> connection whose CONNECT is being processed (no CONNACK written yet)
+	limbo := map[string]map[uint16]*outMsg{} // messages "dropped" from the old client object during that time
 	var checks []*resendCheck
 	// "pkt" events are recorded when the simulated client parses the bytes; their place in time is the
 	// write that completed the packet (N2). Order everything by that.
@@ -97,6 +100,11 @@ func checkOutboundFlows(r *Result, prop string) []Violation {
 				}
 				if old := u[pid]; old == nil || old.payload != payload {
 					u[pid] = &outMsg{pid: pid, payload: payload, stage: 1, seq: e.Seq}
+					if pastRec[id+"|"+payload] {
+						// the broker re-registers a session's messages when the session is resumed (dropped for the old
+						// client object, published for the new one): the exchange is still past PUBREC
+						u[pid].stage = 2
+					}
 				}
 			case "publish_dropped":
 				id, payload := splitHookStr(e.Str2)
@@ -107,9 +115,26 @@ func checkOutboundFlows(r *Result, prop string) []Violation {
 				}
 			case "qos_dropped":
 				id, _ := splitHookStr(e.Str2)
+				if _, busy := inheriting[id]; busy {
+					// the broker "drops" every message of the old client object while a new connection takes the
+					// session over (and registers them again if the session is resumed): whether this removes them
+					// from the session is known only when the CONNACK says whether the session is present
+					if m := get(id)[uint16(e.N)]; m != nil {
+						if limbo[id] == nil {
+							limbo[id] = map[uint16]*outMsg{}
+						}
+						limbo[id][uint16(e.N)] = m
+					}
+				}
 				delete(get(id), uint16(e.N))
 			case "read":
 				if e.Read == nil || e.Conn < 0 {
+					continue
+				}
+				if e.Read.Type == refcodec.CONNECT && e.Conn < len(r.Ex.Conns) {
+					if cid := r.Ex.Conns[e.Conn].CID; cid != "" {
+						inheriting[cid] = e.Conn
+					}
 					continue
 				}
 				id := connSess[e.Conn]
@@ -126,9 +151,13 @@ func checkOutboundFlows(r *Result, prop string) []Violation {
 							delete(u, e.Read.PID)
 						} else {
 							m.stage = 2
+							pastRec[id+"|"+m.payload] = true
 						}
 					}
 				case refcodec.PUBCOMP:
+					if m := u[e.Read.PID]; m != nil {
+						delete(pastRec, id+"|"+m.payload)
+					}
 					delete(u, e.Read.PID)
 				case refcodec.PUBLISH:
 					// the client's own publish: a colliding identifier must not disturb the outbound message
@@ -144,20 +173,35 @@ func checkOutboundFlows(r *Result, prop string) []Violation {
 				continue
 			}
 			c := r.Ex.Conns[e.Conn]
+			if e.Pkt.Type == refcodec.CONNACK {
+				if inheriting[c.CID] == c.Idx {
+					delete(inheriting, c.CID)
+				}
+			}
 			if e.Pkt.Type == refcodec.CONNACK && e.Pkt.ReasonCode == 0 {
 				id := sessIDOfConn(c)
 				connSess[c.Idx] = id
 				rc := &resendCheck{conn: c, sess: id, seq: eseq, resumed: e.Pkt.SessionPresent, expect: map[uint16]outMsg{}}
+				held := limbo[id]
+				delete(limbo, id)
 				if e.Pkt.SessionPresent {
+					// the session goes on: what the takeover "dropped" is still owed to the client
+					for pid, m := range held {
+						if cur := get(id)[pid]; cur == nil {
+							get(id)[pid] = m
+						} else if cur.payload == m.payload && m.stage == 2 {
+							cur.stage = 2
+						}
+					}
 					for pid, m := range get(id) {
 						rc.expect[pid] = *m
 					}
 				} else {
-					// a new session: whatever the old one held must never come back
-					for pid, m := range get(id) {
+					for pid, m := range held {
 						rc.expect[pid] = *m
 					}
-					U[id] = map[uint16]*outMsg{}
+					// a new session: whatever the old one held (dropped during the takeover) must never come back;
+					// what is registered now was queued for the new session after the old one was discarded
 				}
 				checks = append(checks, rc)
 			}
@@ -225,7 +269,7 @@ func checkOutboundFlows(r *Result, prop string) []Violation {
 					if payloadIDOf(pr.P.Payload) == m.payload {
 						found = true
 						if !pr.P.Dup && hasBeenWritten(r, rc.sess, m.payload, rc.seq) {
-							out = append(out, viol(p, "redelivery-without-dup", fmt.Sprintf("conn %d: message %q (id %d) resent after reconnect without DUP", rc.conn.Idx, m.payload, pid), pr.Seq))
+							out = append(out, viol(p, "redelivery-without-dup", fmt.Sprintf("conn %d: message %q (id %d) resent after reconnect without DUP", rc.conn.Idx, m.payload, pid), pr.Seq, "rm_limited", sessRMLimited(r, rc.sess, rc.seq)))
 						}
 					}
 				}
